@@ -44,6 +44,12 @@ def main():
         lines = ['date instant ' + D.hexs(t) for t in texts]
         outs = [D.impl_instant(t) for t in texts]
         chk.stream('date-instant', lines, outs)
+        # the calendar itself: parse_date (strptime + datetime) against the model over the whole domain of dates
+        cal = G.calendar_texts(rng, chk.thorough)
+        lines = ['date instant ' + D.hexs(t) for t in cal]
+        outs = [D.impl_instant(t) for t in cal]
+        dis, _ = chk.stream('date-calendar', lines, outs)
+        disagreeing += [(cal[i], None) for i in dis]
     else:
         chk.broken.append({'kind': 'correspondence', 'stream': 'date-*', 'problem': 'driver could not be rebuilt from the regenerated model'})
 
@@ -133,7 +139,8 @@ def main():
              '+2359/+2400/-0000/+9959, the epoch minute with offsets across it); check_dates contexts with utc_now patched to the instant '
              '-1us/0/+1us/+-1min, to the epoch +-, to datetime.min/max; duplicates, Publican, template and binary exemptions; '
              'whole .po/.pot/.mo catalogues with such date fields through Checker.check() (date tags only); '
-             'non-trivial = distinct accepted normal form',
+             'date-calendar: parse_date vs the model on year 0000..9999 (all in thorough, ~700 stratified in quick) x month 00..13 x day 00,01,28..32, '
+             'every hh:mm 00..99 x 00..99, every offset +-0000..9999; non-trivial = distinct accepted normal form',
         trusted=['Lean 4.33 kernel', 'axioms: propext, Classical.choice, Quot.sound only',
                  'tools/translate/date2lean.py (dumps lib.gettext._timezones, epoch, the white-space class of the running interpreter; pins the regex texts)',
                  'Python re finds a derivation of the dumped sre_parse tree iff one exists (Spec/DateRe.lean semantics); the scanners are proved equal to the trees',
